@@ -48,6 +48,10 @@ pub struct FaultCase {
     /// also inject ErrorKind::Interrupted (std's read_exact / write_all retry it internally) at every position
     #[serde(default)]
     pub with_interrupted: bool,
+    /// generated workloads: a step sequence that is refused without any fault (e.g. a relative
+    /// seek out of range) is simply not a workload
+    #[serde(default)]
+    pub generated: bool,
     pub workload: String,
     pub version: u16,
     pub max_buf: usize,
@@ -612,6 +616,9 @@ pub fn explore_from(ctx: &Ctx, base_case: &FaultCase, base: Option<&(Vec<u8>, BT
         report_problems(ctx, base_case, &reference);
         return stats;
     }
+    if base_case.generated && reference.results.iter().any(|r| r.1.is_err()) {
+        return stats;
+    }
     if reference.results.iter().any(|r| r.1.is_err()) {
         let first_err = reference.results.iter().find(|r| r.1.is_err());
         ctx.report(Violation {
@@ -761,6 +768,50 @@ pub fn readonly_workloads() -> Vec<(String, usize, Vec<WStep>)> {
         v.push((format!("buffered reads {} buf1MiB", name), 1 << 20, s));
     }
     v
+}
+
+/// Generated read-only workloads: open the file and one stream, then EVERY sequence of `depth`
+/// steps over a read / fill_buf / seek alphabet (returns the prefix length with each workload).
+pub fn generated_readonly_workloads(depth: usize) -> Vec<(String, usize, Vec<WStep>, usize)> {
+    let mut out = Vec::new();
+    for (sname, path, len) in [("mini3000", "/mini", 3000u64), ("big10000", "/big", 10000u64)] {
+        let alpha: Vec<WStep> = vec![
+            WStep::Read(0, 1),
+            WStep::Read(0, 700),
+            WStep::Read(0, 2500),
+            WStep::FillConsume(0, 100),
+            WStep::FillConsume(0, 1 << 20),
+            WStep::SeekStart(0, 0),
+            WStep::SeekStart(0, 1300),
+            WStep::SeekStart(0, len - 500),
+            WStep::SeekCur(0, -600),
+            WStep::SeekCur(0, 900),
+            WStep::SeekEnd(0, -1),
+        ];
+        let mut seqs: Vec<Vec<usize>> = vec![vec![]];
+        for _ in 0..depth {
+            let mut next = Vec::new();
+            for q in &seqs {
+                for i in 0..alpha.len() {
+                    let mut t = q.clone();
+                    t.push(i);
+                    next.push(t);
+                }
+            }
+            seqs = next;
+        }
+        for max_buf in [1024usize, 1 << 20] {
+            for q in &seqs {
+                let mut steps = vec![WStep::Open { strict: false }, WStep::OpenStream(0, path.into())];
+                steps.extend(q.iter().map(|&i| alpha[i].clone()));
+                // what the handle yields afterwards
+                steps.push(WStep::Read(0, 700));
+                steps.push(WStep::Read(0, 700));
+                out.push((format!("gen-ro:{}:buf{}:{}", sname, max_buf, q.iter().map(|i| i.to_string()).collect::<Vec<_>>().join(".")), max_buf, steps, 2));
+            }
+        }
+    }
+    out
 }
 
 pub fn mutating_workloads() -> Vec<(String, usize, Vec<WStep>)> {
